@@ -111,3 +111,8 @@ class MultiObjectiveProgressTracker(ProgressTracker):
 
     def get_best_individuals(self) -> list[Individual]:
         return self.pareto_front
+
+    def get_best_individual(self) -> Optional[Individual]:
+        """One of the best individuals (the latest addition to the front): what the searches that
+        return a single individual (random search, hill climbing, 1+1) hand back."""
+        return self.pareto_front[0] if self.pareto_front else None
